@@ -119,6 +119,8 @@ def run_property(prop, tier, seed):
         if b is None:
             return 2
     known = F.load()
+    import shutil
+    shutil.rmtree(os.path.join(REPLAYS, prop), ignore_errors=True)
     agg = {
         "evaluations": 0, "nontrivial_keys": set(), "stats": collections.Counter(), "outcomes": collections.Counter(),
         "failures": [], "machinery": [], "samples": [], "extra": {},
